@@ -277,9 +277,13 @@ def psfandgridconv(xi1, eta1, lat, lon, cm, conf_lat, ellipsoid=grs80, prj=utm):
     grid_conv = degrees(atan(abs(q / p))
                         + atan(abs(tan(conf_lat) * tan(long_diff))
                                / sqrt(1 + tan(conf_lat)**2)))
-    if cm > lon and lat < 0:
+    # the side of the central meridian is that of the longitude difference taken the
+    # short way round (sin(long_diff) < 0: west), so that a position across the
+    # antimeridian from the central meridian (zone 60 east of +180, zone 1 west of -180)
+    # gets the sign of the side it is on
+    if sin(long_diff) < 0 and lat < 0:
         grid_conv = -grid_conv
-    elif cm < lon and lat > 0:
+    elif sin(long_diff) > 0 and lat > 0:
         grid_conv = -grid_conv
 
     return psf, grid_conv
